@@ -38,6 +38,16 @@ def _call( f, args, kwargs ):
         raise NoFold( 'stand-in call: %s' % exc )
 
 
+def _standin( func, env ):
+    """is the dotted callee a stand-in the rule put into the environment ( it then takes precedence over any built-in evaluation )"""
+    from .core import dotted as _dotted
+    d_ = _dotted( func )
+    if d_ is None:
+        return False
+    f_ = _env_get( env, d_ )
+    return f_ is not NoFold and callable( f_ )
+
+
 def fold( e, env=None ):
     """value of a constant expression; names looked up in env (dict or callable name -> value); raises NoFold"""
     if isinstance( e, ast.Constant ):
@@ -138,6 +148,20 @@ def fold( e, env=None ):
             base = None
         if isinstance( base, dict ):
             return base.get( *[ fold( a, env ) for a in e.args ] )
+    if isinstance( e, ast.Call ) and isinstance( e.func, ast.Attribute ) and e.func.attr in ( 'pop', 'setdefault' ) and not e.keywords and e.args and env is not None \
+       and not _standin( e.func, env ):
+        # the two mutating lookups of a mapping / list the cell owns ( a work-list that is consumed ): performed on the cell's own object
+        try:
+            base = fold( e.func.value, env )
+        except NoFold:
+            base = None
+        if isinstance( base, ( dict, list )) and ( e.func.attr == 'pop' or isinstance( base, dict )):
+            try:
+                return getattr( base, e.func.attr )( *[ fold( a, env ) for a in e.args ] )
+            except NoFold:
+                raise
+            except Exception as exc:
+                raise Raises( '%s: %s' % ( type( exc ).__name__, exc ))
     if isinstance( e, ast.Call ) and isinstance( e.func, ast.Attribute ) and e.func.attr in ( 'values', 'keys', 'items' ) and not e.keywords and not e.args:
         try:
             base = fold( e.func.value, env )
@@ -364,6 +388,22 @@ def run_block( stmts, env, ignore_calls=(), stop_at_yield=True ):
             done = None
             for item in seq:
                 _store( st.target, item, env )
+                out = run_block( st.body, env, ignore_calls, stop_at_yield )
+                if out.kind == 'break':
+                    break
+                if out.kind not in ( 'fall', 'continue' ):
+                    done = out; break
+            if done is not None:
+                return done
+            continue
+        if isinstance( st, ast.While ) and not st.orelse:
+            # a loop whose test folds: bounded ( a work-list that is consumed ); more than 256 rounds is not a decision fragment
+            rounds = 0
+            done = None
+            while fold( st.test, env ):
+                rounds += 1
+                if rounds > 256:
+                    raise NoFold( 'while: more than 256 rounds' )
                 out = run_block( st.body, env, ignore_calls, stop_at_yield )
                 if out.kind == 'break':
                     break
